@@ -255,6 +255,7 @@ func (f *FuncCtx) assignStmt(s *ast.AssignStmt, env *Env) {
 		f.fail("assignment arity mismatch at %s", posStr(f.Pkg.Fset, s.Pos()))
 		return
 	}
+	f.recordAliases(s, env)
 	for i, l := range s.Lhs {
 		if id, ok := l.(*ast.Ident); ok {
 			if id.Name == "_" {
@@ -348,7 +349,18 @@ func (f *FuncCtx) assign(l ast.Expr, v Val, env *Env) {
 		case *types.Map:
 			k := f.coerce(f.expr(l.Index, env), u.Key())
 			v = f.coerce(v, u.Elem())
-			f.assign(l.X, Val{T: f.mapStore(x, k, v), Typ: x.Typ}, env)
+			nm := Val{T: f.mapStore(x, k, v), Typ: x.Typ}
+			f.assign(l.X, nm, env)
+			// maps are references: a local that aliases a stored map writes through to it
+			if id, ok := ast.Unparen(l.X).(*ast.Ident); ok && f.aliasDepth == 0 {
+				if o := f.info().ObjectOf(id); o != nil {
+					if tgt, ok := f.aliases[o]; ok {
+						f.aliasDepth++
+						f.assign(tgt, env.vars[o], env)
+						f.aliasDepth--
+					}
+				}
+			}
 		case *types.Slice:
 			i := f.coerce(f.expr(l.Index, env), types.Typ[types.Int])
 			v = f.coerce(v, u.Elem())
@@ -1216,4 +1228,48 @@ func (f *FuncCtx) afterStmt(s ast.Stmt, env *Env) {
 		}
 		return true
 	})
+}
+
+
+// recordAliases notes when a local map variable and a stored map (map element / field) denote the same map:
+//   x := m[k]   x, ok := m[k]   m[k] = x   x = p.f   p.f = x
+func (f *FuncCtx) recordAliases(s *ast.AssignStmt, env *Env) {
+	isMap := func(e ast.Expr) bool {
+		t := f.typeOf(e)
+		if t == nil {
+			return false
+		}
+		_, ok := t.Underlying().(*types.Map)
+		return ok
+	}
+	stored := func(e ast.Expr) bool {
+		switch ast.Unparen(e).(type) {
+		case *ast.IndexExpr, *ast.SelectorExpr:
+			return true
+		}
+		return false
+	}
+	if len(s.Rhs) == 1 && len(s.Lhs) >= 1 {
+		l, r := ast.Unparen(s.Lhs[0]), ast.Unparen(s.Rhs[0])
+		if id, ok := l.(*ast.Ident); ok && stored(r) && isMap(r) {
+			if o := f.info().ObjectOf(id); o != nil {
+				f.aliases[o] = r
+			}
+		}
+		if id, ok := r.(*ast.Ident); ok && stored(l) && isMap(l) && len(s.Lhs) == 1 {
+			if o := f.info().ObjectOf(id); o != nil {
+				f.aliases[o] = l
+			}
+		}
+		if id, ok := l.(*ast.Ident); ok && !stored(r) && isMap(l) {
+			// rebinding the variable to a fresh map ends a previous alias
+			if o := f.info().ObjectOf(id); o != nil {
+				if _, was := f.aliases[o]; was {
+					if _, isIdent := r.(*ast.Ident); !isIdent {
+						delete(f.aliases, o)
+					}
+				}
+			}
+		}
+	}
 }
